@@ -16,6 +16,8 @@ EXTRA = {  # other checks that are also expected to see the change (cross-detect
     'C01-r5-3': ['C19'], 'C02-r5-1': ['C18'], 'C02-r5-2': ['C05', 'C03'], 'C02-r5-3': ['C06'], 'C03-r5-1': ['C16', 'C04'], 'C03-r5-2': ['C02', 'C04'], 'C03-r5-3': ['C04'],
     'C05-r5-1': ['C11', 'C04'], 'C05-r5-2': ['C07'], 'C07-r5-1': ['C06', 'C01'], 'C07-r5-2': ['C19'], 'C08-r5-3': ['C07'], 'C09-r5-2': ['C11', 'C07'], 'C12-r5-1': ['C11'],
     'C17-r5-1': ['C07'], 'C17-r5-3': ['C11'], 'C18-r5-1': ['C02', 'C03'], 'C18-r5-2': ['C09', 'C07'], 'C10-r5-2': ['C04'], 'C11-r5-1': ['C07'], 'C11-r5-3': ['C07'],
+    'C01-r6-1': ['C03', 'C04'], 'C01-r6-2': ['C04', 'C03'], 'C02-r6-1': ['C18'], 'C03-r6-1': ['C11', 'C01'], 'C03-r6-2': ['C04', 'C01'], 'C05-r6-1': ['C02'],
+    'C09-r6-1': ['C04', 'C07'], 'C10-r6-2': ['C04'], 'C12-r6-1': ['C02', 'C07'], 'C12-r6-2': ['C07', 'C11'], 'C18-r6-1': ['C02'], 'C18-r6-2': ['C09', 'C07'],
     'C05-r2-2': ['C07'], 'C10-r2-3': ['C07', 'C08'], 'C17-r2-3': ['C07'], 'C05-r2-3': ['C03', 'C01'], 'C03-r2-2': ['C01'], 'C04-r2-3': ['C01'],
 }
 dirs = sys.argv[1:] or sorted(d for d in os.listdir(f'{V}/seeded') if os.path.isdir(f'{V}/seeded/{d}'))
